@@ -1,6 +1,6 @@
 (* C05 -- Droop proportionality for solid coalitions.
    Proved: the ONE-SEAT clause ("with one seat, a candidate ranked first by more than half of the ballots always wins")
-   for wigm, wigm-prf, cfer(-batch) and the Scottish rule under Fixed / integer / Guarded(guard 0), as whole-run theorems
+   for wigm, wigm-prf(-batch), cfer(-batch), Minneapolis (declared candidates) and the Scottish rule under Fixed / integer / Guarded(guard 0), as whole-run theorems
    (C05_one_seat_majority_wins_partial, ..._scotland_partial, ..._wigm_partial, ..._cfer_partial).
    The general coalition statement is not proved (DESIGN C05: the coalition invariant is the largest single proof of the
    plan); it is decided by the exhaustive coalition oracle on every generated election (all subsets S, all k)
@@ -103,6 +103,20 @@ Theorem C05_one_seat_majority_wins_prf_batch_partial : forall A S (ZL : zlike A 
   forall c, In c (cands s) -> cid c = m -> cst c = Elected.
 Proof. exact count_majority_prf_any. Qed.
 Print Assumptions C05_one_seat_majority_wins_prf_batch_partial.
+
+(* Minneapolis, one seat: a candidate who is not an undeclared write-in (the ordinance excludes write-ins in round 2 whatever
+   their support) and is ranked first by more than half of the ballots is elected -- at the very first count, where the
+   candidates at the threshold fill the seat *)
+Theorem C05_one_seat_majority_wins_mpls_partial : forall A S (ZL : zlike A S) cfg,
+  exact A = false -> cf_nseats cfg = 1 ->
+  forall pr m fuel s k, wf_profile pr -> cf_nballots cfg = ballot_total pr ->
+  (exists pc, In pc (pr_cands pr) /\ pc_cid pc = m /\ pc_withdrawn pc = false /\ pc_undeclared pc = false) ->
+  NoDup (map pc_cid (pr_cands pr)) ->
+  ballot_total pr < 2 * first_prefs pr m ->
+  exec (@crashed A) fuel (count_cmd A cfg RMpls) (init_state A cfg pr) = Some (s, k) -> k <> Abort ->
+  forall c, In c (cands s) -> cid c = m -> cst c = Elected.
+Proof. exact count_majority_mpls. Qed.
+Print Assumptions C05_one_seat_majority_wins_mpls_partial.
 
 (* ... for every ballot file the reader accepts (no equal-rank ballots; [p_eligible] = the candidates that are not withdrawn) *)
 From Droop Require Import Model.Profile Model.EndToEnd Proofs.EndToEndLink.
